@@ -15,7 +15,7 @@ import (
 
 // C02 — boolean predicates keep exactly the nodes for which the predicate is true.
 
-const ruleC02 = "rapid: document biased to many candidates sharing ancestors/siblings (2 element names, fan<=4) x context x path of 1-3 steps over all axes whose steps carry 1-2 boolean predicates of nesting depth<=2 (path existence, =/!= literal, relational number, count(), contains()/starts-with(), local-name(), not(), and/or, true()/false()), or (path)[p1][p2]. Oracles: (1) set(Select) = reference evaluator; (2) engine-only: the selected set equals the candidates of the unfiltered last step for which a freshly compiled boolean(P) is true at that candidate alone. (3) engine-only, on documents of <= 45 nodes: the selected set equals the step-by-step evaluation in which every step is run alone from every node that reached it and every predicate alone at every candidate, each with a fresh compile. Non-trivial: >= 2 candidates reach the last predicate and the verdicts are mixed; distinct by (document, context, expression)."
+const ruleC02 = "rapid: document biased to many candidates sharing ancestors/siblings (2 element names, fan<=4; one case in eight with multi-byte values and literals) x context x path of 1-3 steps over all axes whose steps carry 1-2 boolean predicates of nesting depth<=2 (path existence, =/!= literal, relational number, count(), contains()/starts-with(), local-name(), not(), and/or, true()/false()), or (path)[p1][p2]. Oracles: (1) set(Select) = reference evaluator; (2) engine-only: the selected set equals the candidates of the unfiltered last step for which a freshly compiled boolean(P) is true at that candidate alone. (3) engine-only, on documents of <= 45 nodes: the selected set equals the step-by-step evaluation in which every step is run alone from every node that reached it and every predicate alone at every candidate, each with a fresh compile. Non-trivial: >= 2 candidates reach the last predicate and the verdicts are mixed; distinct by (document, context, expression)."
 
 var uC02 = harness.NewUnit("C02", "rapid-predicates", ruleC02)
 
@@ -214,10 +214,20 @@ func TestC02Rapid(t *testing.T) {
 	runRapid(t, uC02, func(rt *rapid.T) {
 		o, nsFinish := nsModeFor(rt, c02Doc())
 		shape := xgen.Shape(rt, &o)
+		// one case in eight: values and literals outside ASCII - one character of two or three
+		// bytes, a value that holds it, and a value that holds its first byte read as Latin-1
+		multibyte := rapid.IntRange(0, 7).Draw(rt, "multibyte-values") == 7
+		if multibyte {
+			o.Texts = []string{"é", "café", "Ã", "中", "中文", "1", "x y", ""}
+			o.AtVals = []string{"é", "café", "Ã©", "中", "1", ""}
+		}
 		doc := xgen.Doc(rt, o)
 		ctx := xgen.Context(rt, doc, 5)
 		g := xgen.NewG(rt, doc)
 		g.ElNames = xgen.ElNames2
+		if multibyte {
+			g.StrLits = []string{"é", "Ã", "中", "caf", "é", "文", "", "1", "fé"}
+		}
 		g.NonFlatConv = !harness.Excluded("conversion-order")
 		g.NonFlatCount = !harness.Excluded("count-duplicates")
 		nsFinish(g, nil)
